@@ -7,7 +7,7 @@ from ..world import Session, is_contextual, lp_class, np_class
 
 ID = "C09"
 LEVEL = "exploration"
-QUICK_RUNS = 800
+QUICK_RUNS = 3200
 RULE = ("Each run: drawn policy combination (TreeBandit+EpsilonGreedy(eps>0) excluded as the property says), drawn "
         "n_jobs/backend, a history in tie-prone data regimes; at every query point two deep copies of the bandit "
         "answer predict and predict_expectations under the same per-operation schedule seed and every row must "
